@@ -120,7 +120,9 @@ def passThrough (x : XCache) (r : Resp) : Out :=
 
 /-! ### storage (manager.go over internal/memory or an injected fiber.Storage) -/
 
-def Store.lookup (s : Store) (k : Key) : Option Slot := (s.find? (·.1 == k)).map (·.2)
+def Store.lookup : Store → Key → Option Slot
+  | [], _ => none
+  | (k', sl) :: t, k => if k' = k then some sl else Store.lookup t k
 
 def Slot.expired (sl : Slot) (uts : Nat) : Bool := sl.sexp != 0 && sl.sexp ≤ uts
 
@@ -167,27 +169,41 @@ def replay (cfg : Config) (e : Item) (ts : Nat) : Out :=
   { xcache := .hit, status := e.status, body := e.body, ctype := effCType e.ctype, cenc := e.cenc,
     headers := hs }
 
+/-- `e := manager.get(key)`: the stored item, `nil` when internal/memory has none (or it expired
+    there); an external storage yields a blank pooled item instead of `nil` -/
+def lookup1 (cfg : Config) (sh : Shared) (uts : Nat) (key : Key) : Option Item :=
+  match sh.store.get key uts with
+  | some it => some it
+  | none => if cfg.ext then some blankItem else none
+
+/-- `if cfg.CacheInvalidator != nil && cfg.CacheInvalidator(c) { e.exp = ts - 1 }` -/
+def applyInv (q : Req) (ts : Nat) (e : Item) : Item := if q.inv then { e with exp := ts - 1 } else e
+
+/-- the expiry branch: `deleteKey(key); if cfg.MaxBytes > 0 { if size, ok := heap.remove(e.heapidx, key); ok
+    { storedBytes -= size } }` -/
+def sec1Expire (cfg : Config) (sh : Shared) (key : Key) (heapidx : Nat) : Sec1 :=
+  let sh := sh.deleteKey key
+  if cfg.maxBytes > 0 then
+    match sh.heap.remove heapidx key with
+    | none => .panic
+    | some (h, some size) => .pass { sh with heap := h, stored := usub sh.stored size }
+    | some (h, none) => .pass { sh with heap := h }
+  else .pass sh
+
+def itemExpired (e : Item) (ts : Nat) : Bool := e.exp != 0 && ts ≥ e.exp
+
+/-- `if e.exp != 0 && ts >= e.exp {…} else if e.exp != 0 && !hasRequestDirective(c, noCache) {…hit…}` -/
+def sec1Found (cfg : Config) (sh : Shared) (ts : Nat) (q : Req) (key : Key) (e : Item) : Sec1 :=
+  if itemExpired e ts then sec1Expire cfg sh key e.heapidx
+  else if e.exp != 0 && !hasDirective q.cc Facts.noCache then .hit (replay cfg e ts)
+  else .pass sh
+
 /-- cache.go handler, first critical section: `mux.Lock(); e := manager.get(key); ts := …;`
     invalidation / expiry / hit; `mux.Unlock()` -/
 def sec1 (cfg : Config) (sh : Shared) (ts uts : Nat) (q : Req) (key : Key) : Sec1 :=
-  let e? : Option Item :=
-    match sh.store.get key uts with
-    | some it => some it
-    | none => if cfg.ext then some blankItem else none
-  match e? with
+  match lookup1 cfg sh uts key with
   | none => .pass sh
-  | some e =>
-    let e := if q.inv then { e with exp := ts - 1 } else e
-    if e.exp != 0 && ts ≥ e.exp then
-      let sh := sh.deleteKey key
-      if cfg.maxBytes > 0 then
-        match sh.heap.remove e.heapidx key with
-        | none => .panic
-        | some (h, some size) => .pass { sh with heap := h, stored := usub sh.stored size }
-        | some (h, none) => .pass { sh with heap := h }
-      else .pass sh
-    else if e.exp != 0 && !hasDirective q.cc Facts.noCache then .hit (replay cfg e ts)
-    else .pass sh
+  | some e => sec1Found cfg sh ts q key (applyInv q ts e)
 
 inductive Sec2 where
   | panic
@@ -220,26 +236,28 @@ def mkItem (cfg : Config) (q : Req) (ts : Nat) (heapidx : Nat) : Item :=
 def storageExp (cfg : Config) (q : Req) (uts : Nat) : Nat :=
   if (cfg.stTTL || !cfg.ext) && expSecs cfg q > 0 then uts + expSecs cfg q else 0
 
+/-- the part of the second section after the eviction loop: build the item, `heap.put`,
+    `storedBytes += bodySize`, `manager.set` -/
+def sec2Store (cfg : Config) (sh : Shared) (ts uts : Nat) (q : Req) (key : Key) : Sec2 :=
+  if cfg.maxBytes > 0 then
+    match sh.heap.put key (ts + expSecs cfg q) q.resp.body.length with
+    | none => .panic
+    | some (h, idx) =>
+      .stored { store := sh.store.set key ⟨mkItem cfg q ts idx, storageExp cfg q uts⟩,
+                heap := h, stored := uadd sh.stored q.resp.body.length }
+  else
+    .stored { sh with store := sh.store.set key ⟨mkItem cfg q ts 0, storageExp cfg q uts⟩ }
+
 /-- cache.go handler, second critical section (after `c.Next()` returned a cacheable status):
-    `cfg.Next`, size check, eviction loop, build the item, `heap.put`, `manager.set` -/
+    `cfg.Next`, size check, eviction loop, then `sec2Store` -/
 def sec2 (cfg : Config) (sh : Shared) (ts uts : Nat) (q : Req) (key : Key) : Sec2 :=
   if q.skip then .unreachable
-  else
-    let bodySize := q.resp.body.length
-    if cfg.maxBytes > 0 && bodySize > cfg.maxBytes then .unreachable
-    else
-      let sh? := if cfg.maxBytes > 0 then evict cfg.maxBytes bodySize (sh.heap.live.length + 1) sh else some sh
-      match sh? with
-      | none => .panic
-      | some sh =>
-        if cfg.maxBytes > 0 then
-          match sh.heap.put key (ts + expSecs cfg q) bodySize with
-          | none => .panic
-          | some (h, idx) =>
-            .stored { store := sh.store.set key ⟨mkItem cfg q ts idx, storageExp cfg q uts⟩,
-                      heap := h, stored := uadd sh.stored bodySize }
-        else
-          .stored { sh with store := sh.store.set key ⟨mkItem cfg q ts 0, storageExp cfg q uts⟩ }
+  else if cfg.maxBytes > 0 && q.resp.body.length > cfg.maxBytes then .unreachable
+  else if cfg.maxBytes > 0 then
+    match evict cfg.maxBytes q.resp.body.length (sh.heap.live.length + 1) sh with
+    | none => .panic
+    | some sh => sec2Store cfg sh ts uts q key
+  else sec2Store cfg sh ts uts q key
 
 /-! ### threads and the interleaving semantics -/
 
